@@ -62,6 +62,7 @@ type c18Inv struct {
 	returned  bool
 	logAtInv  int
 	randAtInv int
+	invokedAt int64 // stamp taken right before the retry function was invoked
 	logAtRet  int
 }
 
@@ -254,9 +255,21 @@ func c18Retry() {
 		g := st.total
 		st.total++
 		c := &c18Call{idx: i, inv: invStamp, startAt: simrt.Now(), logAtStart: len(simrt.TimerLog()), res: &c18Res{inv.n, i}}
-		if cancelRetAtEntry != 0 {
-			simrt.Failf("C18.call-after-cancel", "invocation %d: operation call %d started (stamp %d) after cancel() had returned (stamp %d)", inv.n, i, c.inv, cancelRetAtEntry)
+		// The library checks the context and then calls the operation: a cancel may complete between the
+		// two. A call is only illegal if the whole gap in which that check must have happened (from the end
+		// of the previous call, or from the invocation of the retry function, to this call) lies after the
+		// cancel had returned.
+		gapStart := inv.invokedAt
+		if i > 0 {
+			gapStart = inv.calls[i-1].ret
+		}
+		if cancelRetAtEntry != 0 && gapStart > cancelRetAtEntry {
+			simrt.Failf("C18.call-after-cancel", "invocation %d: operation call %d started (stamp %d) although cancel() had returned (stamp %d) before the previous call ended / the function was invoked (stamp %d): the context was checked after the cancellation and the operation was called all the same",
+				inv.n, i, c.inv, cancelRetAtEntry, gapStart)
 			return nil, errors.New("stop")
+		}
+		if cancelRetAtEntry != 0 {
+			simrt.Probe("call_overlapping_cancel_window")
 		}
 		if inv.ended {
 			simrt.Failf("C18.called-after-end", "invocation %d: operation called again (call %d) after call %d ended the loop (outcome %d)", inv.n, i, i-1, inv.calls[i-1].outcome)
@@ -415,6 +428,7 @@ func c18Retry() {
 			st.cur = inv
 			inv.started = true
 			inv.logAtInv = len(simrt.TimerLog())
+			inv.invokedAt = simrt.Stamp()
 			inv.randAtInv = len(simrt.RandLog())
 			res, err := fn()
 			inv.returned = true
